@@ -427,6 +427,8 @@ def replay(case):
         return
     if case.get('kind') == 'fuzzy':
         return check_fuzzy(case, Stats())
+    if case.get('kind') == 'nested':
+        return check_nested(case, Stats())
     if case.get('kind') == 'ref':
         txn = lang.mk_txn(case['txn'])
         rows = lang.mk_rows(case['rows']) if case.get('rows') else {}
@@ -505,10 +507,37 @@ def check_fuzzy(case, stats: Stats):
                sample={'text': text, 'word': w} if len(stats.samples) < 2 else None)
 
 
+# ------------------------------------------------------------------------------------------------
+# comprehensions with SEVERAL for-clauses: compared with Python's own evaluation of the same text (no string comparisons in these shapes)
+# ------------------------------------------------------------------------------------------------
+NESTED = ['[c for o in orders for c in o.item]', 'len([c for o in orders for c in o.item])', 'sum(1 for o in orders for c in o.item)',
+          'sum(r.amount for o in orders for r in receipts if r.amount >= o.amount)', '[x for o in orders for x in [r.amount for r in receipts if r.amount >= o.amount]]',
+          'len([1 for o in orders for r in receipts for c in r.item if r.qty >= o.qty])', '[o.amount + r.amount for o in orders for r in receipts]',
+          'sum(o.qty for o in orders for c in o.item if o.amount > 10)']
+nested_st = st.fixed_dictionaries({'kind': st.just('nested'), 'rows': lang.rows_case, 'txn': lang.txn_case})
+
+
+def check_nested(case, stats):
+    from types import SimpleNamespace as NS
+    txn0 = lang.mk_txn(case['txn'])
+    rows = lang.mk_rows(case['rows'])
+    py_ns = {k: [NS(**r) for r in v] for k, v in rows.items()}
+    for src in NESTED:
+        try:
+            exp = ('val', eval(src, dict(py_ns, __builtins__={'len': len, 'sum': sum, 'max': max})))  # one namespace: nested scopes of the comprehension see it
+        except Exception as e:
+            exp = ('err', type(e).__name__)
+        got = tally_eval(src, txn0, {}, rows)
+        if (got[0] == 'val') != (exp[0] == 'val') or (got[0] == 'val' and not same(got, exp)):
+            raise Violation(f'{src!r} gives {got!r}, Python gives {exp!r} for orders={case["rows"]["orders"]} receipts={case["rows"]["receipts"]}', case, 'nested-comprehension')
+    multi = len(case['rows']['orders']) >= 2 and len({r['item'] for r in case['rows']['orders']}) >= 2
+    stats.case(jhash(case), multi, {'nested_comprehension'} | ({'nested_comprehension_rows_differ'} if multi else set()), sample=None)
+
+
 def shards(tier):
     n = 400 if tier == 'quick' else 12000
     ex = 4 if tier == 'quick' else 8
-    return [(f'exhaustive:{i}:{ex}', 0) for i in range(ex)] + [('random', n)] * (15 - ex if tier == 'quick' else 15) + [('fuzzy', 600 if tier == 'quick' else 20000)]
+    return [(f'exhaustive:{i}:{ex}', 0) for i in range(ex)] + [('random', n)] * (15 - ex if tier == 'quick' else 15) + [('fuzzy', 600 if tier == 'quick' else 20000), ('nested', 300 if tier == 'quick' else 6000)]
 
 
 def run_shard(kind, n, seed, tier):
@@ -522,6 +551,9 @@ def run_shard(kind, n, seed, tier):
         return s
     if kind == 'fuzzy':
         campaign(fuzzy_st, check_fuzzy, n, seed, s, tier)
+        return s
+    if kind == 'nested':
+        campaign(nested_st, check_nested, n, seed, s, tier)
         return s
     campaign(case_st, check, n, seed, s, tier)
     return s
